@@ -342,6 +342,14 @@ def fam_binders(inst, a, b, c, sel):
         ('u', bvsort(a + c)), (body, bvsort(a + c))])
     inst.expect(('let', (('v', ('+', 'i', 1)), ('w', 'x')), ('bvnot', 'w')),
                 bvsort(a), inner=[('v', 'Int'), ('w', bvsort(a))])
+    inst.fun('fu', [bvsort(a)], bvsort(b))
+    inst.expect(('let', (('n1', ('fu', 'x')),), ('bvnot', 'n1')), bvsort(b),
+                inner=[('n1', bvsort(b)), (('bvnot', 'n1'), bvsort(b))])
+    inst.var('pb', 'Bool')
+    inst.expect(('let', (('n2', ('fu', 'x')), ('n3', 'i')),
+                 ('ite', 'pb', 'n2', ('fu', 'x'))), bvsort(b),
+                inner=[('n2', bvsort(b)), ('n3', 'Int'),
+                       (('ite', 'pb', 'n2', 'n2'), bvsort(b))])
     inst.expect(('forall', (('z', bvsort(b)), ('k', 'Int')), ('Q', 'z', 'k')),
                 'Bool', inner=[('z', bvsort(b)), ('k', 'Int')])
     inst.expect(('exists', (('e', bvsort(b)),),
